@@ -380,6 +380,26 @@ def shapeOf (facts : List (String × String × Shape)) (recv method : String) : 
   | some f => f.2.2
   | none => .other
 
+/-- where a slice stored into a guarded slice field comes from -/
+inductive StoreKind where
+  | appendOwn    -- `append(recv.f…, …)`: values copied into the container's own storage
+  | fresh        -- `make`, `nil`, a literal, `append(<fresh>, …)`
+  | paramAlias   -- a parameter slice (or re-slice / `append(param, …)`): shares the caller's array
+  deriving Repr, DecidableEq
+
+structure FieldStore where
+  recv : String
+  method : String
+  field : String
+  kind : StoreKind
+  deriving Repr, DecidableEq
+
+/-- the container owns its storage: no assignment makes a field share a caller's backing array,
+and `slice.Append` (the one method that stores caller data) is among the classified assignments -/
+def storesOwned (fs : List FieldStore) : Bool :=
+  fs.all (fun f => f.kind != .paramAlias) &&
+  fs.any (fun f => f.recv == "slice" && f.method == "Append" && f.field == "data")
+
 /-! ### facts about `ring/buffered.go` (shape of what `factgen_c14` extracts) -/
 
 /-- thresholds, offsets and guards of `Buffered`, and every place that writes `b.end` -/
